@@ -198,6 +198,16 @@ CHECKS = {
         "Eliminatable annotations may vanish at any time. Relocatable = present on the result node itself.",
         "DESIGN.md §2 C07",
     ),
+    "C08": (
+        "model_checking",
+        "bounded-exhaustive enumeration of utility calls over E1 states as inputs (every sub-AST x partner for replace, all pool pairs for identical, all case lists / key sets for the ITE builders); truth-table oracle",
+        "replace on every (input, sub-AST, same-sort partner), replace_dict maps, canonicalize, excavate_ite / burrow_ite "
+        "(twice, both orders) on all depth-1 E1 states, a strided family of depth-2 states and nested If trees at "
+        "widths 1-2 (thorough 1-3); identical on all pairs of a ~300-state pool; ite_cases for all case lists of "
+        "length <= 3, reverse_ite_cases, ite_dict for key sets of size 0-6; chop / get_byte / get_bytes at widths 8-24.",
+        "identical(): only True answers are judged. Byte widths use a byte-atom value alphabet.",
+        "DESIGN.md §2 C08",
+    ),
 }
 
 NOT_YET = "check not built yet in this session (planned; see DESIGN.md §2)"
